@@ -8,7 +8,7 @@ CHECKS = {
          "Decides seven structural clauses of memory safety: R-ARRAY (every index into / copy into a fixed-size array is bounded on all paths), R-TYPEWRITE (every value reaching token.type is a known constant < kMaxTokenTypes), R-LOOKBEHIND (every x-k string index is guarded by x>=k), R-INIT (no read of a never-initialised malloc'ed field), R-STALE (no use of a pointer into a realloc-grown buffer after a call that may move it), R-SCANIDX (a sentinel scan indexes only the scanned buffer or a full copy of it), R-SCANSTOP (forward character scans stop at NUL, classifier tables decoded from char.c), R-HEAPIDX (writes into a freshly malloc'ed character buffer stay inside the requested size), R-UAF (no dereference of a local after it was released directly or through a freeing helper), R-OWN (only the engine deep-frees token trees), R-HASHKEY (hash key pointers are record fields), R-GOTOINIT (no forward goto bypasses the initialisation of a local that is read after the label). Does not decide scanner termination, span arithmetic, ownership across containers.",
          "§3 C01"),
  "C02": ("other", "LALR table exploration (exhaustive) + enum-dispatch partial evaluation + call-graph reachability over clang-resolved callees",
-         "Decides three structural clauses: R-LALR (exhaustive exploration of the LALR block parser's configuration space: every sequence of real line kinds is accepted, no error action, stack bounded), R-DISPATCH (every producible token type has a non-escape branch in all 7 writers, by EDPE), R-REDUCE (every reduce action reads all right-hand-side stack slots of its rule), R-LINESTRIP (every line kind a parser action retypes to is unwrapped before export, and no kind is unwrapped in one context but kept raw in another), R-SIBLING (OPML/ITMZ outline writers print the same source ranges per type), R-NOEXIT (no exit/abort reachable from the API). Does not decide that the rendering contains all text.",
+         "Decides three structural clauses: R-LALR (exhaustive exploration of the LALR block parser's configuration space: every sequence of real line kinds is accepted, no error action, stack bounded), R-DISPATCH (every producible token type has a non-escape branch in all 7 writers, by EDPE), R-REDUCE (every reduce action reads all right-hand-side stack slots of its rule), R-LINESTRIP (every line kind a parser action retypes to is unwrapped before export, and no kind is unwrapped in one context but kept raw in another), R-SIBLING (OPML/ITMZ outline writers print the same source ranges per type; compared only while both keep the same dispatch form), R-NOEXIT (no exit/abort reachable from the API). Does not decide that the rendering contains all text.",
          "§3 C02"),
  "C04": ("other", "enum-dispatch partial evaluation (EDPE) of every writer over t->type: token-type x writer matrix, sibling agreement",
          "Decides structural clauses: no writer takes the unknown-token escape for a producible type (text dropped), LaTeX/OpenDocument emit or descend wherever HTML does, document-derived strings reach HTML/XML output only through the escape helpers (R-SINK), reserved-lexeme tokens are never printed raw, each format's character escaper covers its reserved set and a string printer copies raw runs only when delimited by a set covering every escaped byte, sanitised record fields only receive sanitiser results (R-SINK/provenance), note lists re-read their length (R-NOTELIST), and the outline writers (OPML, ITMZ, Beamer) decide closing of items/frames by comparing two levels that are the same linear function of the heading kind (R-LEVEL: EDPE + constant propagation); document-derived strings in LaTeX text positions go through the LaTeX escaper (R-SINK/latex); per writer branch every tag / environment opened is closed under the same guard conditions (R-BALANCE). Does not decide word order, verbatim reproduction or cross-format equality.",
@@ -44,7 +44,7 @@ CHECKS = {
          "Decides that XML escaping on export and unescaping on import are exact inverses byte for byte (entity text, compare length, cursor advance, governing case), exhaustively over the 256 byte values; that the OPML and ITMZ outline writers print the same source ranges per token type (R-SIBLING); that outline nesting compares levels on one scale for every heading kind (R-LEVEL); and that the library import path returns text and length that belong together (R-STALE/len). Verbatim section spans and re-import equality are not decided.",
          "§3 C14"),
  "C13": ("other", "dominator / post-dominator obligations on mmd_transclude_source's CFG + interval analysis of its text[] buffer",
-         "Decides the termination guard and one manifest clause: the recursive call is dominated by the push of the file and by a membership test over the files being expanded whose hit branch skips the recursion, the name tested is the very name pushed (not edited in between), every push is followed by exactly one pop, exit restores the stack; the 1000-byte cap fits text[1100]; the manifest query expands a private copy, never the engine's source; path construction never appends the string a buffer was created from a second time (R-ONCE). Exact substitution, manifest contents and path resolution are not decided.",
+         "Decides the termination guard and one manifest clause: the recursive call is dominated by the push of the file and by a membership test over the files being expanded whose hit branch skips the recursion, the name tested is the very name pushed (not edited in between) and is not built from the previous level's name except through realpath (a name that grows per level never matches: G28), every push is followed by exactly one pop, exit restores the stack; the 1000-byte cap fits text[1100]; the manifest query expands a private copy, never the engine's source; path construction never appends the string a buffer was created from a second time (R-ONCE). Exact substitution, manifest contents and path resolution are not decided.",
          "§3 C13"),
  "C15": ("other", "generated _Static_assert witnesses compiled with clang -fsyntax-only + AST census of next/prev/mate stores + whole-program value-origin analysis of token.type",
          "Decides the compile-time clause exhaustively (every parser terminal below the first block type, every token/critic type below kMaxTokenTypes, every offset-arithmetic family consecutive and equally long, sizeof(token) fits the pool) and two structural necessary conditions of the run-time clauses: R-LINK (next stores are matched by prev stores, mate written symmetrically, tail stored only on chain heads, token_pair_mate only on unmatched tokens), R-SPAN/split (the split primitives tile the original span), R-STALE/len (no token span is cut with a source length read before the text was replaced) and R-TYPEWRITE. Span containment, source order and root span are not decided.",
